@@ -66,6 +66,43 @@ def calls_any(cg, f, names, depth=3, _seen=None):
     return False
 
 
+def motion_notify_rule(ctx, cg=None):
+    from ..flow import CallGraph
+
+    repo = ctx.repo
+    simu = repo.cls(SIMU)
+    cg = cg or CallGraph(repo)
+    # mesh motions and the coordinate setter notify
+    r4 = ctx.rule("R14.4", "mesh motions and coordinate assignment write every group and notify the observers; the observed objects are registered", min_instances=4)
+    mesh = repo.cls(MESH)
+    for nm in ("Translate", "Rotate", "Symmetry"):
+        f = mesh.methods[nm]
+        r4.instance(fn=f.qualname)
+        loops = [n for n in ast.walk(f.node) if isinstance(n, ast.For) and "dict_groupElem" in norm_text(n.iter)]
+        notif = calls_any(cg, f, ("_Notify",))
+        if loops and notif:
+            r4.ok(f"Mesh.{nm}: loops over every group and notifies")
+        else:
+            r4.fail(f.qualname, "motion", f.file, f.lineno, f"Mesh.{nm}", f"{'does not write every element group' if not loops else 'does not notify the observers'}: simulations keep matrices of the old geometry")
+    fcs = mesh.setters.get("coord")
+    if fcs is not None:
+        r4.instance(fn=fcs.qualname)
+        loops = [n for n in ast.walk(fcs.node) if isinstance(n, ast.For) and "dict_groupElem" in norm_text(n.iter)]
+        if loops and calls_any(cg, fcs, ("_Notify",)):
+            r4.ok("Mesh.coord setter: loops over every group and notifies")
+        else:
+            r4.fail(fcs.qualname + ".setter", "coord-setter", fcs.file, fcs.lineno, "Mesh.coord.setter", "assigning mesh.coord does not notify the observers: simulations keep K, C, M of the old coordinates (needUpdate stays False)")
+    # observer registration in the simulation constructor / mesh setter
+    finit = simu.methods["__init__"]
+    r4.instance(fn=finit.qualname)
+    regs = [norm_text(n) for f in (finit, simu.setters.get("mesh"), simu.setters.get("model")) if f is not None for n in ast.walk(f.node) if isinstance(n, ast.Call) and (dotted(n.func) or "").endswith("_Add_observer")]
+    if any("mesh" in x for x in regs) and any("model" in x for x in regs):
+        r4.ok(f"_Simu registers itself on its mesh and model: {regs[:3]}")
+    else:
+        r4.fail(finit.qualname, "observer", finit.file, finit.lineno, "_Simu.__init__", f"the simulation does not register as observer of both its mesh and its model ({regs})")
+
+
+
 def run(ctx):
     repo = ctx.repo
     ctx.level = "other"
@@ -193,34 +230,25 @@ def run(ctx):
             r3c.ok(f"{f.qualname} is keyed by {obj_params}; _Simu._Update clears the memoised values on mesh events")
         else:
             r3c.fail(f.qualname, f"stale-on-mesh-event:{obj_params[0]}", f.file, f.lineno, f"{f.cls.name}.{f.name}", f"memoised per `{obj_params[0]}` object but computed from its geometry; moving / re-coordinating the mesh notifies the simulation, whose _Update raises Need_Update but keeps the memoised value: the element matrix of the old geometry is reused")
-    # mesh motions and the coordinate setter notify
-    r4 = ctx.rule("R14.4", "mesh motions and coordinate assignment write every group and notify the observers; the observed objects are registered", min_instances=4)
-    mesh = repo.cls(MESH)
-    for nm in ("Translate", "Rotate", "Symmetry"):
-        f = mesh.methods[nm]
-        r4.instance(fn=f.qualname)
-        loops = [n for n in ast.walk(f.node) if isinstance(n, ast.For) and "dict_groupElem" in norm_text(n.iter)]
-        notif = calls_any(cg, f, ("_Notify",))
-        if loops and notif:
-            r4.ok(f"Mesh.{nm}: loops over every group and notifies")
+    # ---- R14.3d a memoised simulation method may depend on its arguments only (its cache key)
+    r3d = ctx.rule("R14.3d", "a memoised simulation method reads no model / simulation state through self: model changes only raise Need_Update (the memo is not cleared), so every input must be part of the cache key", min_instances=1)
+    for f in cached:
+        if f.cls is None or simu not in f.cls.mro:
+            continue
+        r3d.instance(fn=f.qualname)
+        reads = sorted({n.attr for n in ast.walk(f.node) if isinstance(n, ast.Attribute) and isinstance(n.value, ast.Name) and n.value.id == "self" and isinstance(n.ctx, ast.Load)
+                        and not (f.cls is not None and repo.lookup_method(f.cls, n.attr) is not None and n.attr not in f.cls.properties_all())} if hasattr(f.cls, "properties_all") else
+                       {n.attr for n in ast.walk(f.node) if isinstance(n, ast.Attribute) and isinstance(n.value, ast.Name) and n.value.id == "self" and isinstance(n.ctx, ast.Load)})
+        reads = [a for a in reads if a not in ("mesh",)]
+        if not reads:
+            r3d.ok(f"{f.qualname}: depends on its arguments only")
         else:
-            r4.fail(f.qualname, "motion", f.file, f.lineno, f"Mesh.{nm}", f"{'does not write every element group' if not loops else 'does not notify the observers'}: simulations keep matrices of the old geometry")
-    fcs = mesh.setters.get("coord")
-    if fcs is not None:
-        r4.instance(fn=fcs.qualname)
-        loops = [n for n in ast.walk(fcs.node) if isinstance(n, ast.For) and "dict_groupElem" in norm_text(n.iter)]
-        if loops and calls_any(cg, fcs, ("_Notify",)):
-            r4.ok("Mesh.coord setter: loops over every group and notifies")
-        else:
-            r4.fail(fcs.qualname + ".setter", "coord-setter", fcs.file, fcs.lineno, "Mesh.coord.setter", "assigning mesh.coord does not notify the observers: simulations keep K, C, M of the old coordinates (needUpdate stays False)")
-    # observer registration in the simulation constructor / mesh setter
-    finit = simu.methods["__init__"]
-    r4.instance(fn=finit.qualname)
-    regs = [norm_text(n) for f in (finit, simu.setters.get("mesh"), simu.setters.get("model")) if f is not None for n in ast.walk(f.node) if isinstance(n, ast.Call) and (dotted(n.func) or "").endswith("_Add_observer")]
-    if any("mesh" in x for x in regs) and any("model" in x for x in regs):
-        r4.ok(f"_Simu registers itself on its mesh and model: {regs[:3]}")
-    else:
-        r4.fail(finit.qualname, "observer", finit.file, finit.lineno, "_Simu.__init__", f"the simulation does not register as observer of both its mesh and its model ({regs})")
+            r3d.fail(f.qualname, f"reads-state:{reads[0]}", f.file, f.lineno, f"{f.cls.name}.{f.name}", f"memoised (keyed by its arguments) but reads self.{reads[0]}: changing that state notifies the simulation, which raises Need_Update and re-assembles - with the memoised value of the old state")
+    motion_notify_rule(ctx, cg)
+    # the parameter descriptors are how a model change reaches Need_Update (R11.5)
+    from . import c11
+
+    c11.descriptor_rule(ctx)
 
     # ---- R14.5 read-after-flag
     r5 = ctx.rule("R14.5", "Get_K_C_M_F re-assembles iff the flag is set and clears it afterwards", min_instances=1)
